@@ -73,6 +73,10 @@ CHECKS = {
    technique="TLC model checking of the hex / ASCII85 structure automata of spec/Filters.tla + replay of enc::encode against enc::decode and independent reference decoders on exhaustive short inputs, runs and data up to 64 KiB",
    text="The structure models define the standard format (zero-group shorthand, partial tail, EOD, odd digits); every supported encoder is run on all short inputs, runs and large random/structured data, its output decoded by the library and by an independent reference decoder for the format.",
    note="The model part is small (shared with C05); assurance comes from the exhaustive short-input replay and the independent decoders."),
+ "C06": dict(level="model_checking", design="5/C06", engine="A:crypt (+B fixtures)",
+   technique="TLC model checking of spec/Crypt.tla (the security handler as a protocol over uninterpreted ciphers: variant table, password acceptance, per-object key, exemptions, where decryption is applied; PlaintextOrRejected) + replay on documents written by an independent encryptor + the repository's encrypted fixtures",
+   text="TLC checks for every configuration that the library model applies decryption exactly where the writer applied encryption, with the key the writer used, and refutes four deviations (AES-256 key truncated, metadata exemption ignored, /Encrypt dictionary decrypted, object-stream members decrypted twice); every configuration is realised by an independent implementation of the standard's algorithms and opened through the library with the user, owner, wrong and empty password; the third-party fixtures validate both implementations.",
+   note="Cryptographic arithmetic is uninterpreted in the spec (sampled through the reference implementation). One recorded finding (direct /Encrypt dictionary) is suppressed by class."),
 }
 
 def main():
